@@ -109,7 +109,8 @@ func (e *simEnd) Write(p []byte) (int, error) {
 	}
 	if e.client {
 		c.c2s.Write(p)
-	} else if c.hold {
+	} else if c.hold || c.srv == w.ghost {
+		// (ghost: the answering node dies inside this transition; its output is discarded afterwards)
 		c.held.Write(p)
 	} else {
 		c.s2c.Write(p)
